@@ -61,10 +61,13 @@ Fixpoint dec_rxtab (l : list value) : option rxtab :=
   | _ => None
   end.
 
-Fixpoint rx_lookup (t : rxtab) (pat path : bytes) : option (bytes * list bytes) :=
+Fixpoint rx_lookup (t : rxtab) (pat path : bytes) : rxr :=
   match t with
-  | [] => None
-  | (p, q, r) :: t' => if beq p pat && beq q path then r else rx_lookup t' pat path
+  | [] => RxUnknown
+  | (p, q, r) :: t' =>
+      if beq p pat && beq q path
+      then match r with Some (rest, caps) => RxYes rest caps | None => RxNo end
+      else rx_lookup t' pat path
   end.
 
 Definition srv_pol (rx : rxo) (root : option node) : pol :=
